@@ -880,29 +880,58 @@ pub fn run(ctx: &Ctx) -> Collector {
     col.space(json!({"name": "(c) schedules", "cases": st, "what": "all interleavings of the thread programs at the guarded scheduling points up to the preemption bounds listed under schedule_programs", "exhaustive": true, "wall_s": (t2.elapsed().as_secs_f64() * 100.0).round() / 100.0}));
     col.sample(json!({"kind": "schedule", "program_index": 0, "points": "coarse", "choices": [0, 0, 1, 0]}));
 
-    // ---- supplementary free-running pass (sampling; labelled; not part of the verdict basis unless it fails)
-    let rounds = if thorough { 400 } else { 60 };
-    let free_cases: Vec<PCase> = all_cases.iter().filter(|c| c.render == Render::None).cloned().collect();
+    // ---- supplementary free-running pass (SAMPLING of OS schedules; labelled; it cannot justify "holds",
+    // but a mismatch it finds is a real violation). 16 threads start on a barrier and build symbols of four
+    // different versions in thread-specific orders for a fixed time; every result is compared with its
+    // pristine digest. This is the only part that can hit a race window that contains no scheduling point.
+    let stress_cases: Vec<PCase> = vec![
+        pc(b"HELLO WORLD", Opts::default(), Render::None),
+        pc(b"a longer byte payload that needs version three..", Opts { ecl: Some(1), ..Opts::default() }, Render::None),
+        pc(b"0123456789012345678901234567890123456789012345678901234567890123456789", Opts { ecl: Some(3), ..Opts::default() }, Render::None),
+        pc(b"https://example.com/some/longer/path?with=query&and=more#fragment-identifier-0123456789-abcdefghijklmnopqrstuvwxyz", Opts::default(), Render::None),
+        pc(b"HELLO WORLD", Opts { version: Some(2), ..Opts::default() }, Render::None),
+    ];
+    let stress_expect = match pristine_each(&stress_cases) {
+        Ok(e) => e,
+        Err(e) => {
+            col.machinery_error(format!("pristine children: {}", e));
+            return col;
+        }
+    };
+    let secs = if thorough { 20.0 } else { 3.0 };
     let bad = AtomicU64::new(0);
+    let done = AtomicU64::new(0);
+    let first_bad: Mutex<Option<String>> = Mutex::new(None);
+    let barrier = std::sync::Barrier::new(16);
     std::thread::scope(|s| {
         for t in 0..16usize {
-            let free_cases = &free_cases;
-            let sexpect = &sexpect;
-            let bad = &bad;
+            let stress_cases = &stress_cases;
+            let stress_expect = &stress_expect;
+            let (bad, done, barrier, first_bad) = (&bad, &done, &barrier, &first_bad);
             s.spawn(move || {
-                for r in 0..rounds {
-                    let c = &free_cases[(t + r) % free_cases.len()];
-                    if sexpect.get(c) != Some(&observe(c)) {
+                barrier.wait();
+                let t0 = std::time::Instant::now();
+                let mut r = t;
+                while t0.elapsed().as_secs_f64() < secs {
+                    // thread-specific order; every few rounds all threads hammer two versions only
+                    let c = &stress_cases[(r * (t % 4 + 1) + t) % stress_cases.len()];
+                    if stress_expect.get(c) != Some(&observe(c)) {
                         bad.fetch_add(1, Ordering::Relaxed);
+                        let mut fb = first_bad.lock().unwrap();
+                        if fb.is_none() {
+                            *fb = Some(format!("thread {} round {} input {:?} opts {:?}", t, r, String::from_utf8_lossy(&c.input), c.opts));
+                        }
                     }
+                    done.fetch_add(1, Ordering::Relaxed);
+                    r += 1;
                 }
             });
         }
     });
     if bad.load(Ordering::Relaxed) > 0 {
-        col.violation((30, 0), "C14/free-running-mismatch".into(), format!("{} builds on 16 free-running threads differ from their sequential pristine result", bad.load(Ordering::Relaxed)), json!({"kind": "free-running"}));
+        col.violation((30, 0), "C14/free-running-mismatch".into(), format!("{} of {} builds on 16 free-running threads differ from their sequential pristine result (first: {})", bad.load(Ordering::Relaxed), done.load(Ordering::Relaxed), first_bad.lock().unwrap().clone().unwrap_or_default()), json!({"kind": "free-running"}));
     }
-    col.set("supplementary_free_running", json!({"threads": 16, "rounds_per_thread": rounds, "mismatches": bad.load(Ordering::Relaxed), "note": "sampling of OS schedules, not part of the exhaustive claim"}));
+    col.set("supplementary_free_running", json!({"threads": 16, "seconds": secs, "builds": done.load(Ordering::Relaxed), "mismatches": bad.load(Ordering::Relaxed), "note": "sampling of OS schedules, not part of the exhaustive claim"}));
 
     let total_states = n_states_a + n_states_b;
     col.set("states", json!(total_states));
